@@ -10,8 +10,9 @@ import ASV.Proofs.RefineCover
 import ASV.Proofs.RefineIncomplete
 import ASV.Proofs.HitFilterMultiple
 import ASV.Proofs.HitFilterEquiv
+import ASV.Proofs.HitCallers
 namespace ASV.C13
-open ASV ASV.Refine ASV.HitFilter
+open ASV ASV.Refine ASV.HitFilter ASV.HitCallers
 
 /-! ## refinement (`hmmscan_refinement.refine_hmmscan_results`, one protein) -/
 
@@ -207,6 +208,13 @@ theorem hmmer_errors (cut : Int → Option Int) (limit : Int) :
       | none => simp [hcc] at hc
       | some v => rfl
     simp [HitFilter.removeOverlapping, this, hs]
+
+/-- the ranking has no ties between different hits: two hits that rank each other at least as
+    high are the same hit (same identifier, start, end, score), so "the best" is well defined -/
+theorem hmmer_rank_ties_are_equal_hits (c : Int → Int) (a b : HHit) (ha : 0 < a.sc ∧ 0 < c a.ident)
+    (h1 : ranksAtLeast c a b = true) (h2 : ranksAtLeast c b a = true) : a = b := by
+  rw [← rankLe_iff_ranksAtLeast] at h1 h2
+  exact rankLe_antisymm c a b ha h1 h2
 
 /-! ## `filter_result_multiple`: one hit per profile and gene -/
 
@@ -413,6 +421,52 @@ theorem equivalence_filter_record (eqs : List (List Int)) (genes : List (List FH
       split at ih
       · next h2 => rw [if_pos h2, ← ih]; simp
       · next h2 => rw [if_neg h2, ← ih]; simp
+
+/-! ## the callers, end to end for one gene: functions of the (multi)set of raw hits -/
+
+/-- `cluster_prediction.find_hmmer_hits` (cut-off → `filter_results` → `filter_result_multiple` →
+    start order): for distinct HSP objects the call never fails, and if no two different raw hits of
+    the gene tie in bitscore the gene's hits are the same multiset for every ordering of the raw list
+    (with ties the earlier raw hit wins, see `equivalence_one_competition`, `multiple_best_per_profile`) -/
+theorem find_hmmer_hits_gene_order_independent (cut : Int → Int) (eqs : List (List Int)) (r₁ r₂ : List FHit)
+    (h : r₁.Perm r₂) (hu : UidNodup r₁) (hn : NoTies r₁) :
+    ∃ o₁ o₂, findHmmerHitsGene cut eqs r₁ = some o₁ ∧ findHmmerHitsGene cut eqs r₂ = some o₂ ∧ o₁.Perm o₂ :=
+  findHmmerHitsGene_perm cut eqs h hu hn
+
+/-- what it returns for a gene: raw hits strictly above their signature's cut-off (and above −1),
+    at most one per profile, ordered by start -/
+theorem find_hmmer_hits_gene_sound (cut : Int → Int) (eqs : List (List Int)) (raw out : List FHit)
+    (h : findHmmerHitsGene cut eqs raw = some out) :
+    (∀ x ∈ out, x ∈ raw ∧ cut x.prof < x.sc ∧ -10 < x.sc) ∧
+    (∀ x ∈ out, ∀ y ∈ out, x.prof = y.prof → x = y) ∧
+    out.Pairwise (fun a b => a.hs ≤ b.hs) :=
+  findHmmerHitsGene_sound cut eqs raw out h
+
+/-- `hmmer.run_hmmer` (score / e-value cut of `build_hits`, then `remove_overlapping`): the locus'
+    hits do not depend on the order of the hmmscan results -/
+theorem run_hmmer_gene_perm_invariant (cut : Int → Option Int) (minScore maxEvalue : Int) (r₁ r₂ : List RawHmm)
+    (h : r₁.Perm r₂) (out : List HHit) (h1 : runHmmerGene cut minScore maxEvalue r₁ = .ok out) :
+    runHmmerGene cut minScore maxEvalue r₂ = .ok out :=
+  runHmmerGene_perm cut minScore maxEvalue h out h1
+
+/-- `domain_identification.find_domains` / `find_ab_motifs`: a function of the gene's hit *set* -/
+theorem find_domains_enumeration_invariant (env : Env) (L : Int) (r₁ r₂ : List Hit) (h : ∀ x, x ∈ r₁ ↔ x ∈ r₂) :
+    findDomainsGene env L r₁ = findDomainsGene env L r₂ ∧ findAbMotifsGene env r₁ = findAbMotifsGene env r₂ :=
+  ⟨findDomainsGene_same_set env L h, refine_enumeration_invariant env true r₁ r₂ h⟩
+
+/-- `domain_identification.find_subtypes`: for given domains of the gene, a function of the set of
+    raw sub-type hits … -/
+theorem find_subtypes_enumeration_invariant (env : Env) (target : Int) (strip : Int → Int) (existing r₁ r₂ : List Hit)
+    (h : ∀ x, x ∈ r₁ ↔ x ∈ r₂) :
+    findSubtypesGene env target strip existing r₁ = findSubtypesGene env target strip existing r₂ :=
+  findSubtypesGene_same_set env target strip existing h
+
+/-- … and every sub-type hit attached to a domain overlaps that domain (`add_internal_hits` cannot
+    raise) and is a refined hit of the gene, renamed by the callback -/
+theorem find_subtypes_hits_overlap_parent (env : Env) (strip : Int → Int) (raw : List Hit) (d : Hit) :
+    ∀ s ∈ subtypeHits env strip raw d,
+      overlapsWith s d = true ∧ ∃ h ∈ refine env true raw, s = { h with prof := strip h.prof } :=
+  subtypeHits_overlap env strip raw d
 
 /-! ## docking domains -/
 
